@@ -31,4 +31,7 @@ void unit_mpi_relax(const amgcl::mpi::distributed_matrix<Backend> &A) {
     boost::property_tree::ptree prm;
     amgcl::runtime::mpi::relaxation::wrapper<Backend> w(A, prm);
     (void)w;
+    // copy of a distributed matrix (and its communication pattern) to another backend (C11 K.memberwise-copy)
+    amgcl::mpi::distributed_matrix<amgcl::backend::builtin<float>> Af(A);
+    (void)Af;
 }
